@@ -86,6 +86,15 @@ pub fn run_job(line: &str) -> String {
                 Err(ps) => format!("panic render {}", ps.site),
             }
         }
+        // det <hex path | -> <hex data>: fingerprints of the written tree and of the pixels
+        Some("det") if p.len() == 3 => {
+            let path = if p[1] == "-" { None } else { Some(std::path::PathBuf::from(String::from_utf8_lossy(&hex_decode(p[1])).to_string())) };
+            let data = hex_decode(p[2]);
+            match crate::c06::fingerprint(&data, path.as_deref()) {
+                Some((a, b)) => format!("fp {:x} {:x}", a, b),
+                None => "none".to_string(),
+            }
+        }
         // contract <prop> <dpi> <hex path | -> <hex data>: walk the whole tree, check the property's contracts
         Some("contract") if p.len() == 5 => {
             let dpi: f32 = p[2].parse().unwrap_or(96.0);
